@@ -422,6 +422,13 @@ pub fn c05(a: &Args) {
                 json!({"hex": hex(&d), "cfg": {}})
             }).collect();
             extra_cases.push(json!({"docs": docs, "expect": {"st": "ok"}}));
+            // every twelfth random session is followed by one built around a boundary size (deep / wide / long)
+            if s % 12 == 11 {
+                let b = s / 12;
+                let docs: Vec<Value> = boundary_session(&mut r, b, BOUNDARIES[(b / BOUNDARY_KINDS + b) % BOUNDARIES.len()])
+                    .iter().map(|d| json!({"hex": hex(d), "cfg": {}})).collect();
+                extra_cases.push(json!({"docs": docs, "expect": {"st": "ok"}}));
+            }
         }
     }
     // with --reverse the inputs are processed in the opposite order (digests are still written in input order): state
